@@ -19,7 +19,7 @@ CLAIM = dict(
          'container kinds incl. cross-type conversions: after every step the value of EVERY live object must equal the model value.',
     note='Exact (integer data, bit patterns). Not demanded (soundness, DESIGN section 7): accept => no panic for zero-sized or ill-formed operands; '
          'state after a rejected compound assignment; cross_section_x/ynode with an out-of-range node on a mesh that has no node in the other '
-         'direction (the code copies nothing and returns an empty section - observed, reported as a note). Excluded by the property: raw (i,j) index of '
+         'direction (the code copies nothing and returns an empty section - observed, reported as a note). The single-argument index operators of Vector, Polynomial, Mesh1D (node) and the checked (i,j) index of Tridiagonal are table rows (read and write) and are run on receivers shrunk by read/resize/pop/trim/clear with indices valid for the old size only. Excluded by the property: raw (i,j) index of '
          'Matrix, Banded, Mesh2D; Sparse::from_vecs. Newton::solve_jacobian (vector Newton) has no accessor to project its receiver and is left to C17. '
          'Sparse/Mesh1D/Mesh2D implement no Clone, so clone independence covers the five clonable kinds. Trusted: TLC, the harness projections '
          '(guards.rs: pj/val), the binding of names to calls in guards.rs (a missing binding is a tool error; a skipped entry point fails the coverage event).',
